@@ -129,6 +129,19 @@ func VerifC17Staking() {
 		}
 	}
 	rt.Assert("D2-one-message-per-decoded-event", len(routed) <= len(decoded))
+	if err == nil {
+		// success of the hook means every event of the staking contract that has a handler was executed, exactly once
+		handled := 0
+		for i, l := range receipt.Logs {
+			if _, ok := h.handlers[l.Topics[0]]; ok && fromContract[i] {
+				handled++
+			}
+		}
+		if handled == 2 {
+			rt.Reach("two-handled-events")
+		}
+		rt.Assert("D2-every-handled-event-executed-once", len(routed) == handled)
+	}
 	for i, m := range routed {
 		p := decoded[i]
 		who, _ := bech32.ConvertAndEncode("teleport", p.delegator.Bytes())
